@@ -198,6 +198,53 @@ def expected_protocol(cfg, end) -> List[Tuple]:
     return out
 
 
+def conforms(got, want, cfg, last=False):
+    """None if the protocol events `got` do what `want` (the normal simulator's sequence) asks for, else what is wrong.  Harmless
+    surplus is accepted: a route pruned more than once, a symbol without a route pruned, an additional flush - but every strategy
+    that is due executes exactly once and none that is not, each route is pruned after its strategy ran and before the flush
+    that follows the last execution, and (after the last minute) every terminate is followed by a flush and the finishing
+    sample is the last event"""
+    if got == want:
+        return None
+    routes = list(cfg["symbols"])
+    due = [e[1] for e in want if e[0] == "exec"]
+    execs = [e[1] for e in got if e[0] == "exec"]
+    if sorted(execs) != sorted(due):
+        return f"strategies executed: {execs}, due: {due}"
+    body = got
+    tail = []
+    if last:
+        k = next((i for i, e in enumerate(got) if e[0] == "terminate"), None)
+        if k is None:
+            return "no strategy is terminated after the last minute"
+        body, tail = got[:k], got[k:]
+    flushes = [i for i, e in enumerate(body) if e == ("flush",)]
+    if not flushes:
+        return "the pending MARKET orders are not executed"
+    last_exec = max([i for i, e in enumerate(body) if e[0] == "exec"], default=-1)
+    f = next((i for i in flushes if i > last_exec), None)
+    if f is None:
+        return "no execution of the pending MARKET orders follows the last strategy execution"
+    for r in routes:
+        ex = next((i for i, e in enumerate(body) if e == ("exec", r)), -1)
+        if not any(e == ("prune", r) and ex < i < f for i, e in enumerate(body)):
+            return f"the active orders of {r} are not pruned between its strategy execution and the execution of the pending MARKET orders"
+    if any(e[0] == "exec" for e in body[f:]):
+        return "a strategy executes after the pending MARKET orders were executed"
+    if last:
+        terms = [e[1] for e in tail if e[0] == "terminate"]
+        if sorted(terms) != sorted(routes):
+            return f"strategies terminated: {terms}"
+        for i, e in enumerate(tail):
+            if e[0] == "terminate":
+                nxt = next((x for x in tail[i + 1:] if x[0] in ("terminate", "flush")), None)
+                if nxt != ("flush",):
+                    return f"the termination of {e[1]} is not followed by an execution of the pending MARKET orders"
+        if not tail or tail[-1] != ("sample", False) or any(e[0] == "sample" for e in tail[:-1]):
+            return "the finishing equity sample is not the last event (or is taken more than once)"
+    return None
+
+
 def check_protocol(repo, rep, rid, what="full", cfgs=None, sims=SIMS):
     """S3: at the end of every minute that the simulator itself steps over (every minute with several symbols or in the normal
     simulator; every chunk end otherwise): nothing of the protocol happens before all symbols have been matched; then, route by
@@ -235,8 +282,9 @@ def check_protocol(repo, rep, rid, what="full", cfgs=None, sims=SIMS):
             if what == "prune":
                 got = [e for e in got if e[0] in ("exec", "prune")]
                 want = [e for e in want if e[0] in ("exec", "prune")]
-            if got != want:
-                bad = f"after minute {b['end']} the simulator does {got}, expected {want}"
+            why = conforms(got, want, cfg, last=(bi == len(bl) - 1))
+            if why:
+                bad = f"after minute {b['end']} the simulator does {got}; expected {want}: {why}"
                 break
         if bad:
             rep.violation(rid, f"{sim}|minute-end-protocol",
@@ -260,10 +308,11 @@ def check_same_protocol(repo, rep, rid, cfgs=None):
             rep.violation(rid, "prologue-differs", f"({name}) before the first candle the normal simulator does {pre[SIMS[0]]}, the fast simulator {pre[SIMS[1]]} (expected: prepare times and routes, then the initial equity sample, in both)")
         nb = {b["end"]: proto(b["events"]) for b in blocks(ss[(name, "_step_simulator")][1].events)}
         fb = {b["end"]: proto(b["events"]) for b in blocks(ss[(name, "_skip_simulator")][1].events)}
-        diff = [(e, nb.get(e), p) for e, p in fb.items() if nb.get(e) != p]
+        last_end = max(fb, default=None)
+        diff = [(e, nb.get(e), p, w) for e, p in fb.items() for w in [("no such step" if nb.get(e) is None else conforms(p, nb[e], cfg, last=(e == last_end)))] if w]
         if diff or max(nb, default=None) != max(fb, default=None):
-            e, n_, f_ = diff[0] if diff else (None, None, None)
-            rep.violation(rid, "phases-differ", f"({name}) after minute {e} the normal simulator does {n_}, the fast simulator {f_}")
+            e, n_, f_, w = diff[0] if diff else (None, None, None, "the sessions end at different minutes")
+            rep.violation(rid, "phases-differ", f"({name}) after minute {e} the normal simulator does {n_}, the fast simulator {f_}: {w}")
         # minutes the fast simulator leaves to its matcher must be minutes at which the normal simulator executes no strategy
         inner = [e for e in nb if e not in fb and any(x[0] == "exec" for x in nb[e])]
         if inner:
